@@ -98,12 +98,44 @@ def directed_rewatch(r):
     return dict(cfg=tuple(cfg), insts=[], draws=[0] * 4, events=events, end=t + r.choice([1, T // 2, 2 * T, 4 * T]), rev=r.random() < 0.3, fuel=20000)
 
 
+def directed_double_reboot(r):
+    """A source that was heard on BOTH channels reboots; its first unicast and its first multicast message afterwards (each
+    reveals the reboot on its channel) arrive in ONE loop iteration, or a few ticks apart; the first carries an offer the
+    second does not repeat.  Also: two restarts in a row revealed by two messages of one datagram instant."""
+    from .. import conv
+    T = scen.T
+    cfg = list(scen.timings(r))
+    cfg[11] = r.choice([0, 5 * scen.MS])
+    p = scen.Peer(1)
+    sx, sy = scen.SERVICES[0], scen.SERVICES[1]
+    regs = [(0, (1, [5, [0, 0]]))]
+    if r.random() < 0.5:
+        regs.append((0, (1, [3, conv.s_service(scen.FILTERS[0]), [0, 1]])))
+    events = list(regs)
+    t = r.choice([1, T // 4])
+    events.append((t, (0, 1, False, p.datagram([sx.create_offer_entry(r.choice([3, 0xFFFFFF]))], False))))
+    events.append((t + r.choice([0, 1, T // 8]), (0, 1, True, p.datagram([sx.create_offer_entry(r.choice([3, 0xFFFFFF]))], True))))
+    t += T // 2
+    p.reboot()
+    gap = r.choice([0, 0, 0, 1, T // 16])
+    first_mc = r.random() < 0.5
+    events.append((t, (0, 1, first_mc, p.datagram([sy.create_offer_entry(r.choice([3, 0xFFFFFF]))], first_mc))))
+    if r.random() < 0.3:
+        p.reboot()          # a second restart: the next message repeats a session id on the SAME channel
+        second_mc = first_mc
+    else:
+        second_mc = not first_mc
+    events.append((t + gap, (0, 1, second_mc, p.datagram([] if r.random() < 0.6 else [sx.create_offer_entry(3)], second_mc))))
+    return dict(cfg=tuple(cfg), insts=[], draws=[0] * 4, events=sorted(events, key=lambda e: e[0]), end=t + 5 * T, rev=r.random() < 0.3, fuel=20000)
+
+
 def run(ctx):
     r = ctx.rng
     quick = ctx.tier == "quick"
     ctx.rule = ("timed histories of offers (TTL 1,2,3 s, infinite), stop-offers, reboot evidence (alone and with offers in one datagram), connection loss, "
                 "watch/unwatch/watch-all calls, 3 sources x 3 services x 6 filters x 3 listeners, times on TTL deadlines, +-1 tick and anywhere, both "
-                "tie orders; half of the scenarios register listeners statically so that the per-listener history can be compared with the abstract "
+                "tie orders; re-registration with the source talking in the gap; a rebooted source heard on both channels whose first unicast and multicast messages "
+                "arrive in one loop iteration; half of the scenarios register listeners statically so that the per-listener history can be compared with the abstract "
                 "specification; every scenario runs on the real stack under the virtual-time loop and on the model (complete traces compared) and the "
                 "implementation trace is judged by the extracted checker check_C05; non-trivial = distinct scenario producing at least one event")
     ctx.assumptions = ["a listener is registered under at most one filter matching a given service (otherwise: known finding F13)",
@@ -111,7 +143,7 @@ def run(ctx):
     n = 300 if quick else 12000
     scs = stackprop.corpus_scenarios("C05")
     for k in range(n):
-        scs.append(directed_renewal(r) if k % 10 == 9 else directed_rewatch(r) if k % 10 == 4 else static_discovery(r) if k % 2 == 0 else scen.discovery_scenario(r))
+        scs.append(directed_renewal(r) if k % 10 == 9 else directed_rewatch(r) if k % 10 == 4 else directed_double_reboot(r) if k % 10 == 7 else static_discovery(r) if k % 2 == 0 else scen.discovery_scenario(r))
     if not quick:
         for k in range(3000):
             scs.append(static_discovery(r) if k % 2 == 0 else scen.discovery_scenario(r, small=True, length=r.randint(1, 5)))
